@@ -375,6 +375,20 @@ def _main(pid, tier, seed, args, t0):
         except Exception:
             broken.append("native harness crashed: " + traceback.format_exc()[-800:])
 
+    # ---- induction lemmas (Lean 4): the meta-arguments from per-step contracts to whole histories
+    lean_report = run_lean(pid, tier)
+    for lr in lean_report:
+        if lr["status"] == "proved":
+            n_ob += 1
+            n_proved += 1
+            by_backend[lr["backend"]] = by_backend.get(lr["backend"], 0) + 1
+        elif lr["status"] == "skipped":
+            pass
+        elif lr["status"] == "error":
+            broken.append(f"lean lemma {lr['theorem']} ({lr['file']}) is not accepted: {lr.get('detail', '')[:300]}")
+        else:
+            undecided.append({"obligation": f"{pid}/lean/{lr['theorem']}", "note": lr.get("detail", "")[:200]})
+
     # ---- violations: replay each counter-model on the real code
     out_lines = []
     replay_dir = os.path.join(ROOT, "replays")
@@ -456,6 +470,7 @@ def _main(pid, tier, seed, args, t0):
         "known_finding_obligations": known,
         "violations": [o["id"] for _r, o, _c in violations] + [f.get("what") for f in native_fail],
         "repo_root": repo.REPO,
+        "lean_lemmas": lean_report,
     }
     ok_proof = n_ob >= 1 and not broken
     _write_evidence(pid, tier, seed, t0, cov, nviol=nviol, broken=broken, pid_assumptions=assumptions(pid))
@@ -545,6 +560,70 @@ def run_mutants(pid, cds, muts, timeout_ms, jobs, base_results):
         outcome = "killed" if killed_by else ("out-of-reach" if demoted else ("undecided" if unknowns else "survived"))
         report.append({"name": name, "expect": expect, "outcome": outcome, "killed_by": killed_by[:3], "demoted": demoted[:2]})
     return report
+
+
+LEAN_LEMMAS = {
+    # property -> [(file, theorem, what it lifts)]
+    "C01": [("lean/Induction.lean", "refinement_fold", "per-operation refinement of M(k) => every finite operation sequence refines the list model")],
+    "C05": [("lean/Induction.lean", "invariant_fold", "diagonal invariant re-established by every assignment => holds after every assignment / update history")],
+    "C06": [("lean/Induction.lean", "delay_is_time_shift", "newest-sample + history-shift + rest-state step contracts => the sample k steps back is the value of step t-k (rest before the start)")],
+    "C07": [("lean/ClosedForms.lean", "cumulative_trace_closed_form", "one-step recurrence => sum over past matching events of amplitude*decay^age"),
+            ("lean/ClosedForms.lean", "nearest_trace_closed_form", "no event yet => nearest trace is 0"),
+            ("lean/ClosedForms.lean", "nearest_trace_since_last", "one-step recurrence => amplitude*decay^(steps since the last event)")],
+    "C08": [("lean/ClosedForms.lean", "pair_sum", "per-step term spike x trace + trace recurrence => documented sum over spike pairs")],
+    "C10": [("lean/Induction.lean", "invariant_fold", "one bounded update keeps the parameter in range => any update history does")],
+    "C11": [("lean/Induction.lean", "batch_projection_fold", "per-step batch projection => whole input sequences")],
+    "C13": [("lean/Induction.lean", "refinement_fold", "per-setter refinement => any sequence of reconfigurations")],
+    "C15": [("lean/Induction.lean", "invariant_fold", "representation invariant re-established by every operation => holds after every operation sequence")],
+}
+_LEAN_CACHE = {}
+
+
+def run_lean(pid, tier):
+    """Check the Lean files cited by this property (one `lean` run per file per process) and read the axioms each
+    theorem depends on from the `#print axioms` lines.  A missing `lean`, a timeout or an unavailable Mathlib is
+    `undecided`; an error or a `sorry` is a checker error."""
+    import shutil
+    import subprocess
+
+    out = []
+    for file, thm, what in LEAN_LEMMAS.get(pid, []):
+        path = os.path.join(ROOT, file)
+        if tier == "quick" and file.endswith("ClosedForms.lean") and not os.environ.get("VERIF_LEAN_MATHLIB"):
+            # needs `import Mathlib` (up to ~2 min on a cold cache): thorough tier only
+            out.append({"file": file, "theorem": thm, "lifts": what, "backend": "lean-4", "status": "skipped", "detail": "Mathlib lemma: checked in the thorough tier"})
+            continue
+        if file not in _LEAN_CACHE:
+            exe = shutil.which("lean")
+            if exe is None or not os.path.exists(path):
+                _LEAN_CACHE[file] = ("undecided", "lean not available", "")
+            else:
+                try:
+                    t0 = time.time()
+                    pr = subprocess.run([exe, path], capture_output=True, text=True, timeout=900)
+                    txt = pr.stdout + pr.stderr
+                    if pr.returncode != 0 or "error" in txt.lower():
+                        # an import failure (Mathlib not loadable) is an environment limit, not a refuted lemma
+                        st = "undecided" if "unknown module prefix" in txt or "object file" in txt else "error"
+                        _LEAN_CACHE[file] = (st, txt[-600:], "")
+                    else:
+                        _LEAN_CACHE[file] = ("ok", txt, f"{time.time() - t0:.1f}s")
+                except subprocess.TimeoutExpired:
+                    _LEAN_CACHE[file] = ("undecided", "lean timed out", "")
+        st, txt, tm = _LEAN_CACHE[file]
+        rec = {"file": file, "theorem": thm, "lifts": what, "backend": "lean-4", "time": tm}
+        if st == "ok":
+            m = re.search(r"'" + re.escape(thm) + r"' (does not depend on any axioms|depends on axioms: \[([^\]]*)\])", txt)
+            if m is None:
+                rec.update(status="error", detail="theorem not found in lean output")
+            elif m.group(2) and "sorryAx" in m.group(2):
+                rec.update(status="error", detail="depends on sorry")
+            else:
+                rec.update(status="proved", axioms=(m.group(2) or "none"))
+        else:
+            rec.update(status=st, detail=txt)
+        out.append(rec)
+    return out
 
 
 def trusted_base(pid, results):
